@@ -423,12 +423,34 @@ func RunSession(s Session, o Options) (vs []evid.Violation) {
 			if st.Op == "reset-decode" {
 				td.Types, td.PrimaryType, td.Domain, td.Message = nil, "", nil, nil
 			}
+			// the text is the caller's memory: a slice of a larger buffer, followed by spare
+			// capacity; it is not written to, and after the call the caller may overwrite it
+			buf := make([]byte, len(st.Doc)+48)
+			n := copy(buf, st.Doc)
+			for k := n; k < len(buf); k++ {
+				buf[k] = 0xEE
+			}
 			var uerr error
-			if pv := evid.Guard("no-panic:unmarshal", func() { uerr = json.Unmarshal([]byte(st.Doc), td) }); pv != nil {
+			if pv := evid.Guard("no-panic:unmarshal", func() { uerr = json.Unmarshal(buf[:n:len(buf)], td) }); pv != nil {
 				return append(vs, *pv)
 			}
 			if uerr != nil && st.WellFormed {
 				return append(vs, evid.V("well-formed-accepted", "step %d (%s): json.Unmarshal into TypedData failed: %v", i, desc, uerr))
+			}
+			if string(buf[:n]) != st.Doc || bytes.Count(buf[n:], []byte{0xEE}) != len(buf)-n {
+				return append(vs, evid.V("input-unchanged", "step %d (%s): decoding wrote into the caller's text buffer (or the capacity behind it)", i, desc))
+			}
+			if held, err := Snapshot(td); err == nil {
+				for k := range buf {
+					buf[k] = 'Z'
+				}
+				now, err := Snapshot(td)
+				if err != nil {
+					return append(vs, evid.V("input-not-retained", "step %d (%s): the decoded TypedData cannot be rendered any more after the caller overwrote the text it was decoded from: %v", i, desc, err))
+				}
+				if a, b := Canon(now), Canon(held); a != b {
+					return append(vs, evid.V("input-not-retained", "step %d (%s): the decoded TypedData changed when the caller overwrote the text it was decoded from\nbefore: %s\nafter:  %s", i, desc, clipText(b), clipText(a)))
+				}
 			}
 			if firstDoc < 0 {
 				firstDoc = i
